@@ -208,7 +208,9 @@ def paths(stmts, env=None, decide=None, limit=MAX_PATHS, helpers=None):
                             if isinstance(t, ast.Name):
                                 env[t.id] = ast.Subscript(value=clone(v), slice=ast.Constant(value=k), ctx=ast.Load())
                     else:
-                        # store into an attribute / item: the base object changes
+                        # store into an attribute / item: recorded as the effect __store__(target, value), and the base object changes
+                        env["__effects__"] = env.get("__effects__", []) + [
+                            ast.Call(func=ast.Name(id="__store__", ctx=ast.Load()), args=[subst(tg, env), v], keywords=[])]
                         base = tg
                         while isinstance(base, (ast.Attribute, ast.Subscript)):
                             base = base.value
